@@ -18,6 +18,7 @@ func VerifH_mtu4() {
 	r, stop := Handler4(req, resp)
 
 	vnd.Assert(r != nil || stop, "C13 a built-in handler returns a nil response only together with stop")
+	vnd.Assert(r != nil || stop, "C01 no handler passes a nil response on to its successors (they would dereference it)")
 	vnd.Assert(r == resp && !stop, "C17 mtu passes the response on")
 	entitled := kind != 2 || vh.Listed(codes, uint8(dhcpv4.OptionInterfaceMTU))
 	got, present := resp.Options[uint8(dhcpv4.OptionInterfaceMTU)]
